@@ -5,6 +5,7 @@ import (
 	"encoding/json"
 	"fmt"
 	"os"
+	"strings"
 	"sync"
 	"testing"
 	"time"
@@ -26,6 +27,7 @@ func c02Opts() lab.GenOpts {
 	o := c01Opts()
 	o.StoreFaults = true
 	o.GateCommits = true
+	o.AckSendFaults = 30
 	o.MaxRecords = 16
 	return o
 }
@@ -78,16 +80,19 @@ type c02Replay struct {
 	DelayMs int      `json:"delay_ms"`
 	Bundle  int      `json:"bundle"`
 	Ops     []c02Op  `json:"ops"`
-	History []string `json:"history,omitempty"`
+	// SendFail: attempt indices of the host's ack Send that fail without delivering (transient
+	// failures of the plugin stream; bursts shorter than the engine's retry bound).
+	SendFail []int    `json:"send_fail,omitempty"`
+	History  []string `json:"history,omitempty"`
 }
 
 // runC02Direct executes an op list against a real connector.Source and returns the world log + violations.
-func runC02Direct(delayMs, bundle int, ops []c02Op) ([]lab.Event, []lab.Violation, map[string]int) {
+func runC02Direct(delayMs, bundle int, ops []c02Op, sendFail ...int) ([]lab.Event, []lab.Violation, map[string]int) {
 	const total = 400
 	c := &lab.Case{
 		Engine: "v1", PersistDelayMs: delayMs, PersistBundle: bundle,
 		Recovery: lab.RecoverySpec{MinMs: 1, MaxMs: 2, Factor: 2},
-		Sources:  []lab.SourceSpec{{ID: "src0", N: total, Batches: []int{total}, ReadFaultAfter: -1, EmptyPosAt: -1, DupPosAt: -1}},
+		Sources:  []lab.SourceSpec{{ID: "src0", N: total, Batches: []int{total}, ReadFaultAfter: -1, EmptyPosAt: -1, DupPosAt: -1, AckSendFail: sendFail}},
 		Dests:    []lab.DestSpec{{ID: "dst0"}},
 	}
 	w := lab.NewWorld(c, nil, nil)
@@ -333,11 +338,25 @@ func TestC02Direct(t *testing.T) {
 		bundle := []int{1, 2, 5, 1000}[rapid.IntRange(0, 3).Draw(t, "bundle")]
 		ops := genC02Ops(t)
 		rp := c02Replay{DelayMs: delay, Bundle: bundle, Ops: ops}
+		if lab.Chance(t, "sendfail", 35) {
+			var ss lab.SourceSpec
+			lab.GenAckSendFaults(t, &ss)
+			rp.SendFail = ss.AckSendFail
+		}
 		pbt.MarkCurrent("C02", rp)
-		events, vs, stats := runC02Direct(delay, bundle, ops)
+		events, vs, stats := runC02Direct(delay, bundle, ops, rp.SendFail...)
 		faults := stats["failset"] + stats["failcommit"] + stats["failnewtxn"]
-		nontrivial := stats["ack"] >= 2 && (faults > 0 || stats["gate"] > 0 || stats["teardown"] > 0)
+		sendFailed := 0
+		for _, e := range events {
+			if e.Kind == lab.EvNote && strings.HasPrefix(e.Info, "ack-send-failed") {
+				sendFailed++
+			}
+		}
+		nontrivial := stats["ack"] >= 2 && (faults > 0 || stats["gate"] > 0 || stats["teardown"] > 0 || sendFailed > 0)
 		cls := []string{"part=direct"}
+		if sendFailed > 0 {
+			cls = append(cls, "direct:ack-send-failed")
+		}
 		for _, k := range []string{"failset", "failcommit", "failnewtxn", "gate", "teardown", "reopen", "source-errors", "wait-pending-timeout"} {
 			if stats[k] > 0 {
 				cls = append(cls, "direct:"+k)
@@ -441,7 +460,7 @@ func TestReplayC02(t *testing.T) {
 	var rp c02Replay
 	if err := json.Unmarshal(doc.Replay, &rp); err == nil && len(rp.Ops) > 0 {
 		for i := 0; i < 3; i++ {
-			events, vs, _ := runC02Direct(rp.DelayMs, rp.Bundle, rp.Ops)
+			events, vs, _ := runC02Direct(rp.DelayMs, rp.Bundle, rp.Ops, rp.SendFail...)
 			for _, v := range vs {
 				t.Errorf("run %d: %s", i, v.String())
 			}
